@@ -800,6 +800,49 @@ func checkC11(w *World, c *Check, tier string) {
 		}
 	}
 	c.stat("struct_field_stores_in_clean_closure", nstores)
+	// (listwalk) the list's own Clean hands EVERY member to CleanRecipients: while it walks the list it does not
+	// rearrange it — no copy() onto the list, and the only thing stored into a slot is what CleanRecipients returned
+	// for that same slot. Shifting members down inside an index loop makes the loop skip the member that moved into
+	// the current slot: its private recipients survive.
+	if m := w.Method("ItemCollection", "Clean"); m != nil {
+		bad := ""
+		nslot := 0
+		for _, b := range m.Blocks {
+			for _, in := range b.Instrs {
+				switch x := in.(type) {
+				case *ssa.Call:
+					if bi, ok := x.Common().Value.(*ssa.Builtin); ok && bi.Name() == "copy" {
+						bad = fmt.Sprintf("members are shifted with copy() at %s while the list is being walked", w.InstrPos(x))
+					}
+				case *ssa.Store:
+					ia, ok := x.Addr.(*ssa.IndexAddr)
+					if !ok || !isItemListValue(w, ia.X) && !isItemCollectionType(w, ia.X.Type()) {
+						continue
+					}
+					nslot++
+					call, isCall := unwrap(x.Val).(*ssa.Call)
+					okv := false
+					if isCall && call.Common().StaticCallee() == cleanRecipients && len(call.Common().Args) == 1 {
+						// the argument is the member of that same slot (the range element, or a load of list[idx])
+						arg := unwrap(call.Common().Args[0])
+						if ld, isLd := arg.(*ssa.UnOp); isLd && ld.Op == token.MUL {
+							if ia2, isIA := ld.X.(*ssa.IndexAddr); isIA && ia2.Index == ia.Index {
+								okv = true
+							}
+						}
+					}
+					if !okv {
+						bad = fmt.Sprintf("a list slot is assigned something other than CleanRecipients of that same slot at %s", w.InstrPos(x))
+					}
+				}
+			}
+		}
+		if bad != "" {
+			c.bad("C11.listwalk", "ItemCollection.Clean", w.FuncPos(m), "ItemCollection.Clean rearranges the list it is walking: "+bad+" — the member that moves into the current slot is never visited and keeps its bto/bcc")
+		} else {
+			c.ok("C11.listwalk", "ItemCollection.Clean", w.FuncPos(m), fmt.Sprintf("%d slot assignment(s), each CleanRecipients of the same slot; the list is not rearranged", nslot))
+		}
+	}
 	c.ok("C11.frame", "closure", "-", fmt.Sprintf("%d stores into vocabulary struct fields in the Clean closures, all to Bto/BCC", nstores))
 }
 
